@@ -299,7 +299,29 @@ func ruleC13MemoryLatestByKey(c *Ctx) {
 	}
 	bad := ""
 	cmp := 0
-	for _, g := range withAnon(f) {
+	// LoadLatest, its closures, and the package helpers it calls (a helper may do the ranking)
+	scope := map[*ssa.Function]bool{}
+	var add func(g *ssa.Function, depth int)
+	add = func(g *ssa.Function, depth int) {
+		if g == nil || g.Blocks == nil || scope[g] || depth > 2 {
+			return
+		}
+		for _, a := range withAnon(g) {
+			scope[a] = true
+			allInstrs(a, func(i ssa.Instruction) {
+				if h := staticCallee(i); h != nil && h.Pkg != nil && h.Pkg.Pkg.Path() == pkgPersist {
+					add(h, depth+1)
+				}
+			})
+		}
+	}
+	add(f, 0)
+	var fs []*ssa.Function
+	for g := range scope {
+		fs = append(fs, g)
+	}
+	sortFuncs(fs)
+	for _, g := range fs {
 		c.FuncsAnalysed[shortName(g)] = true
 		allInstrs(g, func(i ssa.Instruction) {
 			bo, ok := i.(*ssa.BinOp)
